@@ -12,10 +12,9 @@ reading of an `n`-bit field; `Dy.val ⟨m, e⟩ = m·2^e : ℚ`.  A decoder argu
 `u` or the signed value `toSigned bits u` that `struct.unpack` produces — every `decode_spec` covers both.
 All statements are for ALL words / byte strings (no size bound other than the width of the code).
 
-Three statements of the property are FALSE on the code as it is; they are proved in the partial form given here, their
+Two statements of the property are FALSE on the code as it is; they are proved in the partial form given here, their
 negations are proved on a witness, and they are registered as known findings in `known_findings.d/C07.json`:
-* code 50 (`F8`): only `from50_decode_spec_partial` (exponent field 0 … 1023);
-* `RepCode.readBytes(70, ·)` raises for every negative value (`readBytes70_negative_raises`);
+* code 50 (`F8-from50-exponent-mask`): only `from50_decode_spec_partial` (exponent field 0 … 1023);
 * `to68` clamps `v ≤ -2^127` to a word that decodes to `-2^-129`; hence `from68_to68_partial` excludes `0x80000000`.
 -/
 namespace TD.C07
@@ -177,14 +176,27 @@ theorem from70_decode_spec (u : Nat) (hu : u < 2 ^ 32) (w : Int) (hw : IsArg 32 
   have : fld u 0 32 = u := by unfold fld; simp only [Nat.pow_zero, Nat.div_one]; exact Nat.mod_eq_of_lt hu
   rw [this, Dy.val_mk]
 
-/-- **Code 70 through `RepCode.readBytes`**: the public read path raises `OverflowError` for a negative value
-(`FF 66 C0 00` = -153.25) because `STRUCT_RC_70` unpacks a signed int and `cRepCode.from70` takes an unsigned one;
-non-negative values are fine (finding `C07-readBytes70-negative`). -/
-theorem readBytes70_negative_raises :
-    readBytes 70 [0xFF, 0x66, 0xC0, 0x00] = .error .overflowError ∧
-    readBytes 70 [0x00, 0x99, 0x40, 0x00] = .ok (.flt (.fin ⟨10043392, -16⟩)) ∧
-    pFrom 70 (toSigned 32 0xFF66C000) = .ok (.flt (.fin ⟨-10043392, -16⟩)) := by
-  refine ⟨by rfl, by rfl, by rfl⟩
+/-- **Code 70 through `RepCode.readBytes`** (the public read path: `struct.unpack('>I')`, then the Cython
+`from70(unsigned int)`): every four bytes decode to `twos32(word)/2^16`, negative values included
+(the former finding `C07-readBytes70-negative`, fixed in /repo by `STRUCT_RC_70 = STRUCT_RC_UINT_4`). -/
+theorem readBytes70_decode_spec (b0 b1 b2 b3 : Nat) (h0 : b0 < 256) (h1 : b1 < 256) (h2 : b2 < 256) (h3 : b3 < 256) :
+    ∃ d, readBytes 70 [b0, b1, b2, b3] = .ok (.flt (.fin d)) ∧
+      d.val = (twos 32 (((b0 * 256 + b1) * 256 + b2) * 256 + b3) : ℚ) * (2 : ℚ) ^ (-16 : ℤ) := by
+  have hu : ((b0 * 256 + b1) * 256 + b2) * 256 + b3 < 2 ^ 32 := by simp only [Nat.reducePow]; omega
+  obtain ⟨d, hd, hv⟩ := from70_decode_spec _ hu _ (Or.inl rfl)
+  refine ⟨d, ?_, hv⟩
+  have hw : beWord [b0, b1, b2, b3] = ((b0 * 256 + b1) * 256 + b2) * 256 + b3 := by
+    simp [beWord]
+  have hok : cArgOk 70 ((((b0 * 256 + b1) * 256 + b2) * 256 + b3 : Nat) : Int) = true := by
+    simp only [Nat.reducePow] at hu
+    simp only [cArgOk, decide_eq_true_eq]
+    omega
+  simp only [readBytes, lisSize, structSigned, rcFrom, cFrom, pFrom, hw]
+  push_cast at hok hd ⊢
+  simp [hok, hd]
+
+example : readBytes 70 [0xFF, 0x66, 0xC0, 0x00] = .ok (.flt (.fin ⟨-10043392, -16⟩)) ∧
+    readBytes 70 [0x00, 0x99, 0x40, 0x00] = .ok (.flt (.fin ⟨10043392, -16⟩)) := ⟨by rfl, by rfl⟩
 
 /-! ## RP66V1 Appendix B -/
 
